@@ -158,6 +158,7 @@ func main() {
 	runECCRegister()
 	runECCHistories() // parity + interleaving, vector families
 	runECCTwins()
+	runECCLongHistories()
 	if !chk.Quick() {
 		runECCValues()
 	}
@@ -184,6 +185,9 @@ func replay(c rcase) {
 	case "ecch":
 		fmt.Println("replay of a call history re-runs the history family")
 		runECCHistories()
+	case "eccl":
+		fmt.Println("replay of a long call history re-runs the family")
+		runECCLongHistories()
 	case "ecct":
 		if s, ok := symBySize(c.Rows, c.Cols); ok {
 			twinCase(l, s, c.N/16, c.N%16, c.Index/3, c.Index%3)
